@@ -142,13 +142,13 @@ RESP_TEMPLATES = {
 
 
 def template(ctx, kind="req", name="get", lo=0, hi=None, h=1, ncuts=1, sym_limits=False, bytewise=False,
-             cut_near=None):
+             cut_near=None, mode="replace"):
     t = (REQ_TEMPLATES if kind == "req" else RESP_TEMPLATES)[name]
     hi = len(t) - h + 1 if hi is None else hi
     near = None
     if h:
         pos = lo + ctx.choice("pos", hi - lo)
-        data = t[:pos] + ctx.bytes("h", h, "bytewise") + t[pos + h:]
+        data = t[:pos] + ctx.bytes("h", h, "bytewise") + (t[pos + h:] if mode == "replace" else t[pos:])
         if cut_near is not None:
             near = (pos - cut_near, pos + h + cut_near)
     else:
@@ -196,6 +196,15 @@ def jobs(tier):
                                 params=dict(kind=kind, name=name, lo=lo, hi=min(lo + span, len(t)), h=1, ncuts=1,
                                             cut_near=near),
                                 limits=lim))
+            # one extra byte inserted (e.g. a doubled CR): everywhere (thorough) / from the body on (quick)
+            body0 = t.find(b"\r\n\r\n") + 2 if b"\r\n\r\n" in t else t.find(b"\n\n")
+            for lo in range(0, len(t) + 1, span):
+                if quick and (lo + span <= body0 or "chunked" not in name):
+                    continue
+                out.append(dict(name=f"{kind}-{name}-ins1-{lo}", func="template",
+                                params=dict(kind=kind, name=name, lo=lo, hi=min(lo + span, len(t) + 1), h=1, ncuts=1,
+                                            cut_near=near, mode="insert"),
+                                limits=lim))
             if not quick:
                 for lo in range(0, len(t) - 1, span):
                     out.append(dict(name=f"{kind}-{name}-w2-{lo}", func="template",
@@ -219,6 +228,6 @@ REQUIRED_OUTCOMES = ("reject/reject", "accept:1/accept:1", "accept:2/accept:2")
 def bounds(tier):
     return {"templates": {"request": sorted(REQ_TEMPLATES), "response": sorted(RESP_TEMPLATES)},
             "cuts": "unmodified templates: every single cut, every pair of cuts, byte-at-a-time; templates with a window: every single cut (thorough) / every cut within 6 bytes of the window (quick)",
-            "window": "1 byte (quick), 1-2 bytes (thorough) at every offset, domain 0x00-0x7F u 0xF8-0xFF",
+            "window": "1 byte (quick), 1-2 bytes (thorough) replacing the bytes at every offset; 1 byte inserted at every offset (thorough) / at every offset from the end of the header block on in the chunked templates (quick); domain 0x00-0x7F u 0xF8-0xFF",
             "limits": "max_line_size in [len(start line)-2, +2], max_field_size in [len(longest field)-2, +2], max_headers in 1..6 (symbolic, independent)",
             "symbolic_chunked_bodies": "3..4 bytes (quick), 3..6 (thorough), all 256 values"}
